@@ -29,6 +29,7 @@ inductive Role
   | acceptor
   | lcloser
   | ccloser (c : Nat)
+  | acloser (a : Nat)      -- closes the connection that the Accept of thread `a` returned (once it has returned one)
 deriving Repr, DecidableEq
 
 structure Th where
@@ -87,6 +88,12 @@ def Sys.arriveEnd (s : Sys) (backlog : Nat) : Sys :=
 /-- an arrival nobody interleaves with -/
 def Sys.arrive (s : Sys) (backlog : Nat) : Sys := (s.arriveBegin).arriveEnd backlog
 
+/-- the connection the Accept of thread `a` has returned, if it has -/
+def Sys.accepted? (s : Sys) (a : Nat) : Option Nat :=
+  match s.ths[a]? with
+  | some th => (match th.role, th.pc with | .acceptor, .done (.conn c) => some c | _, _ => none)
+  | none => none
+
 def step (s : Sys) (t : Nat) : Sys :=
   match s.ths[t]? with
   | none => s
@@ -120,6 +127,19 @@ def step (s : Sys) (t : Nat) : Sys :=
       let s1 := { s with table := s.table.filter (· ≠ c) }
       if s1.table.isEmpty ∧ !s1.accepting then s1.setPc t .atWait
       else s1.setPc t (.done .ok)
+    | .acloser a, .start =>
+      -- Conn.Close of the connection thread `a` accepted; it cannot start before that Accept has returned
+      match s.accepted? a with
+      | some _ => (({ s with wg := s.wg - 1 }).setPc t .atLock).cascade
+      | none => s
+    | .acloser a, .atLock =>
+      if s.arrPending then s else     -- blocked on connLock
+      match s.accepted? a with
+      | some c =>
+        let s1 := { s with table := s.table.filter (· ≠ c) }
+        if s1.table.isEmpty ∧ !s1.accepting then s1.setPc t .atWait
+        else s1.setPc t (.done .ok)
+      | none => s
     | _, .atWait =>
       if s.readWG = 0 then s.setPc t (.done .ok) else s.setPc t .parkedWait
     | _, _ => s
